@@ -178,5 +178,8 @@ func compare(criteriaWithWeights *model.WeightedCriteria, a1, a2 *model.Alternat
 func (m *Majority) ParseParams(dm *model.DecisionMaker) interface{} {
 	var params MajorityHeuristicParams
 	utils.DecodeToStruct(dm.MethodParameters, &params)
+	for _, c := range dm.Criteria {
+		params.Weights.Fetch(c.Id)
+	}
 	return params
 }
